@@ -93,7 +93,9 @@ def _real(x):
     if isinstance(x, _pyfloat):
         if math.isinf(x) or math.isnan(x):
             raise Unsupported("inf/nan used where a finite real is required")
-        return z3.RealVal(str(Fraction(x)))
+        # a python float stands for the decimal literal it prints as (4.6 -> 23/5), the same reading z3py applies
+        # to floats mixed into terms; keeps constants consistent between harness contracts and the executed source
+        return z3.RealVal(str(Fraction(repr(x))))
     return z3.RealVal(_pyint(x))
 
 
@@ -172,8 +174,21 @@ def s_truth(a):
 
 
 # ------------------------------------------------------------------ arithmetic (finite kinds)
+F32 = True  # concrete float arithmetic is rounded to float32 after every operation (what the real tensors do)
+
+
+def f32(x):
+    import numpy as np
+
+    if isinstance(x, _pyfloat) and not math.isinf(x):
+        return _pyfloat(np.float32(x))
+    return x
+
+
 def _arith(a, b, op):
     if not is_sym(a) and not is_sym(b):
+        if F32 and (isinstance(a, _pyfloat) or isinstance(b, _pyfloat)) and not isinstance(a, Fraction) and not isinstance(b, Fraction):
+            return f32(op(f32(_pyfloat(a)), f32(_pyfloat(b))))
         return op(a, b)
     if _is_float_like(a) or _is_float_like(b):
         return op(_real(a), _real(b))
@@ -290,6 +305,8 @@ def s_div(a, b):
             if a == 0:
                 raise Unsupported("0/0")
             return math.copysign(math.inf, a)
+        if F32 and not isinstance(a, Fraction) and not isinstance(b, Fraction):
+            return f32(f32(_pyfloat(a)) / f32(_pyfloat(b)))
         return a / b
     if not is_sym(b):
         if b == 0:
@@ -297,7 +314,7 @@ def s_div(a, b):
         if b == 1:
             return _real(a)
         if isinstance(b, _pyfloat) and not isinstance(b, _pybool):
-            return _real(a) * _real(Fraction(1) / Fraction(b))
+            return _real(a) * _real(Fraction(1) / Fraction(repr(b)))
     else:
         from . import explore
 
